@@ -89,6 +89,14 @@ func (f *c34Facts) hooks() *tracing.Hooks {
 	}
 }
 
+// c34KnownDBErr is the class label of the known finding "missing node, different
+// roots, no error" (see notes/C34.md); the gate is inert unless the driver lists it.
+const c34KnownDBErr = "missing-node-different-root-no-error"
+
+// c34KnownHeader: "missing ancestor header, BLOCKHASH silently zero, different roots,
+// no error" (see notes/C34.md).
+const c34KnownHeader = "missing-ancestor-header-different-root-no-error"
+
 type c34Removal struct {
 	kind string // state | code | header
 	idx  int
@@ -131,7 +139,7 @@ func TestVerifC34Stateless(t *testing.T) {
 	st := vs.New("C34", t)
 	vs.Check(t, 1, func(rt *rapid.T) {
 		c := st.Case()
-		w := worldgen.Draw(rt, worldgen.Options{MaxBlocks: 3})
+		w := worldgen.Draw(rt, worldgen.Options{MaxBlocks: 4})
 		facts := &c34Facts{}
 		cfg := core.DefaultConfig()
 		scheme := []string{rawdb.HashScheme, rawdb.PathScheme}[ep.Uniform(rt, "scheme", 2)]
@@ -272,6 +280,19 @@ func TestVerifC34Stateless(t *testing.T) {
 			case sr == last.Root() && rr == last.ReceiptHash():
 				needless++
 				c.Class("removal:" + rm.kind + "/not-needed")
+			case rm.kind == "header" && vs.Known("TestVerifC34Stateless", c34KnownHeader):
+				// Known finding (only when listed): BLOCKHASH of an ancestor whose header is
+				// missing from the witness silently yields the zero hash.
+				st.Excluded()
+				required++
+				c.Class("removal:header/KNOWN-different-roots-no-error")
+			case rm.kind != "header" && vs.Known("TestVerifC34Stateless", c34KnownDBErr):
+				// Known finding (only when listed in known_findings.json): ExecuteStateless
+				// ignores the StateDB's memoised database error, so a missing trie node or
+				// code blob yields different roots without an error.
+				st.Excluded()
+				required++
+				c.Class("removal:" + rm.kind + "/KNOWN-different-roots-no-error")
 			default:
 				rt.Fatalf("C34 violated: after removing %s stateless execution returned no error but state root %x receipt root %x (true: %x / %x)\n%s",
 					what, sr, rr, last.Root(), last.ReceiptHash(), describe())
